@@ -114,6 +114,7 @@ pub fn merge_stats(a: &mut RunStats, b: &RunStats) {
     a.forced_start += b.forced_start;
     a.clock_jumps += b.clock_jumps;
     a.teardown_ops += b.teardown_ops;
+    a.library_threads += b.library_threads;
     a.blocked_handoffs += b.blocked_handoffs;
     a.hash_rekey += b.hash_rekey;
     for (k, v) in &b.poison_ops {
@@ -163,7 +164,8 @@ pub fn work_main(a: &WorkArgs) {
     let refs: Vec<RefEntry> = serde_json::from_str(&std::fs::read_to_string(&a.refs_path).expect("refs")).expect("refs json");
     let known = load_known(&a.known_path);
     let g = GenCtx::new(&pool, &refs);
-    let t0 = Instant::now();
+    // (raw clock: the worker's ordinary clocks jump when a scenario says so)
+    let t0 = crate::procs::raw_now_ns();
     let mut out = WorkerOut::default();
     out.stats.yield_hits = vec![0; N_SITES];
     out.stats.yield_preempts = vec![0; N_SITES];
@@ -240,12 +242,12 @@ pub fn work_main(a: &WorkArgs) {
             break;
         }
         if a.log_every > 0 && (i - a.from + 1) % a.log_every == 0 {
-            eprintln!("[work {}] {}/{} scenarios, {:.1}s", a.tag, i - a.from + 1, a.to - a.from, t0.elapsed().as_secs_f64());
+            eprintln!("[work {}] {}/{} scenarios, {:.1}s", a.tag, i - a.from + 1, a.to - a.from, (crate::procs::raw_now_ns() - t0) as f64 / 1e9);
         }
     }
     out.states = states.into_iter().collect();
     out.transitions = transitions.into_iter().collect();
-    out.wall_s = t0.elapsed().as_secs_f64();
+    out.wall_s = (crate::procs::raw_now_ns() - t0) as f64 / 1e9;
     std::fs::write(&a.out_path, serde_json::to_string(&out).unwrap()).expect("write worker out");
     if out.incomplete_from.is_some() {
         // stuck threads cannot be joined: leave without running destructors
